@@ -1,7 +1,7 @@
 """C19 - array, axis-view and iterator API invariants.
 
 Observation point L: the public API of sfs_core::array, driven by harness op `array` on an array
-filled with its own flat positions. Oracle: row-major enumeration computed here with
+filled with its own flat positions (negated at odd positions for about half of the shapes). Oracle: row-major enumeration computed here with
 itertools.product - independent of the strides/shape code under test. Every individual call is
 wrapped in catch_unwind by the harness; a recorded panic is a refuting event.
 """
@@ -120,13 +120,14 @@ def check_histories(S, shape, res, kind, histories, bad, is_panic):
                 break
 
 
-def check_shape(S, shape, res, kind, queries, nvalid):
-    tag = "%s %s" % ("x".join(map(str, shape)), kind)
+def check_shape(S, shape, res, kind, queries, nvalid, signed=False):
+    tag = "%s %s%s" % ("x".join(map(str, shape)), kind, " signed" if signed else "")
     d = len(shape)
     n = _prod(shape)
     idxs = [list(i) for i in itertools.product(*[range(m) for m in shape])]
-    flat_of = {tuple(ix): f for f, ix in enumerate(idxs)}
-    wit = {"replay": {"shape": shape, "kind": kind}}
+    # element at flat position f holds f (or -f at odd positions in the signed variant)
+    flat_of = {tuple(ix): (-f if signed and f % 2 else f) for f, ix in enumerate(idxs)}
+    wit = {"replay": {"shape": shape, "kind": kind, "signed": signed}}
 
     def bad(sig, what):
         S.viol("C19:%s" % sig, "[%s] %s" % (tag, what), wit)
@@ -243,7 +244,7 @@ def check_shape(S, shape, res, kind, queries, nvalid):
         acc = {}
         for f, ix in enumerate(idxs):
             key = tuple(x for j, x in enumerate(ix) if j != a)
-            acc[key] = acc.get(key, 0) + f
+            acc[key] = acc.get(key, 0) + flat_of[tuple(ix)]
         exp = [acc[k] for k in itertools.product(*[range(m) for m in rest])]
         if r["shape"] != rest or r["data"] != exp:
             bad("sum:value", "sum(axis=%d) = %r, expected shape %r data %r" % (a, r, rest, exp))
@@ -253,18 +254,20 @@ def check_shape(S, shape, res, kind, queries, nvalid):
 def shard(S, p):
     if "replay" in p:
         w = p["replay"]
-        p = {"kind": w["kind"], "shapes": [w["shape"]], "name": "replay"}
+        p = {"kind": w["kind"], "shapes": [w["shape"]], "name": "replay", "signed": w.get("signed", False)}
     rng = rng_for(0, "c19", p["name"])  # query padding is seed independent: the space is enumerated
     reqs, metas = [], []
     for shape in p["shapes"]:
         q, nv = get_queries(shape, rng)
         hs = index_histories(shape, rng)
-        reqs.append({"op": "array", "shape": shape, "get": q, "extra": 3, "index_histories": hs})
-        metas.append((q, nv, hs))
+        sg = p.get("signed", (sum(shape) + len(shape)) % 2 == 1)       # about half of the shapes hold mixed-sign data
+        reqs.append({"op": "array", "shape": shape, "get": q, "extra": 3, "index_histories": hs, "signed": sg})
+        metas.append((q, nv, hs, sg))
     results = harness.run_all(reqs, kind=p["kind"])
-    for shape, res, (q, nv, hs) in zip(p["shapes"], results, metas):
+    for shape, res, (q, nv, hs, sg) in zip(p["shapes"], results, metas):
         res["_histories"] = hs
-        check_shape(S, shape, res, p["kind"], q, nv)
+        check_shape(S, shape, res, p["kind"], q, nv, signed=sg)
+        S.count("signed_arrays" if sg else "unsigned_arrays")
         S.case(key="%s|%s" % (shape, p["kind"]), nontrivial=_prod(shape) >= 2)
         if shape in ([2, 3], [3, 1, 2]) and p["kind"] == "release":
             S.sample({"shape": shape, "build": p["kind"], "iter_indices_trace": res.get("iter_indices"),
